@@ -269,6 +269,8 @@ type Sim struct {
 	// InCallbackLive additionally receives the engine's live table (as real callers do).
 	InCallbackLive func(s *Sim, name string, live, clone *pokertable.Table)
 	opSeq          int64         // odd while the harness itself is inside a table operation (see OpSeq)
+	CallGuard      time.Duration // > 0: game actions run under a watchdog (Do returns ErrHung, Hung says which call)
+	Hung           string
 	OpenWaitExtra  time.Duration // added to the wait for a hand to open (retry scenarios)
 	FenceWait      time.Duration // overrides the wait for the post-settlement fence when > 0
 
